@@ -1,5 +1,7 @@
 import GB.C10.Proofs
 import GB.C10.StatusJson
+import GB.C10.FwdRules
+import GB.C10.StreamWitness
 import GB.C09.Props
 import GB.Generated.Facts
 /-
@@ -485,6 +487,137 @@ theorem C10_unary_target_failure_is_failure (sc : Scenario) (env : Env) (t : Res
     · exact C10_unary_message_then_failure sc env t h1 hi
   rw [h]
   exact ⟨(failResp_fields _ _ _ _ _).1, (failResp_fields _ _ _ _ _).2.1⟩
+
+/-! ### httpStream as an LTS: all interleavings Forward's call rules permit (GB/C10/Stream.lean) -/
+
+/-- **Forward's call rules, imported from the Forward LTS of C01/C02.** In every run of `ProxyForwarder.Forward` for a
+    method that is not client-streaming — any client, any target, any schedule, any faults — the events on the
+    incoming stream form a word the discipline automaton accepts: `Recv` once and first; `SetHeader / SetTrailer /
+    Send` never while a `Send` is pending (single owner: they all come from the response pump) and only after `Recv`
+    returned; Forward returns only with no call pending and calls nothing afterwards. -/
+theorem C10_forward_call_rules {M E : Type} [DecidableEq M] [DecidableEq E] (p : GB.Fwd.Params) (hcs : p.cs = false)
+    (tr : List (GB.Fwd.Label M E)) (s : GB.Fwd.State M E) (h : GB.Fwd.Run p tr s) :
+    HS.drun HS.dinit (tr.filterMap HS.kindOf) = some (HS.discOf s) :=
+  HS.fwd_run_accepts p hcs tr s h
+
+/-- …in particular (from `C02_cleanup`: both pumps have exited when Forward returns) no `Send` is pending and `Recv`
+    has returned when the handler gets control back — its `writeError` is ordered after every completed call. -/
+theorem C10_forward_returns_idle {M E : Type} [DecidableEq M] [DecidableEq E] (p : GB.Fwd.Params)
+    (s : GB.Fwd.State M E) (hr : GB.Fwd.Reachable p s) (hd : GB.Fwd.isDone s = true) :
+    (HS.discOf s).pendingSend = false ∧ (HS.discOf s).recv = .returned :=
+  HS.fwd_returned_idle p s hr hd
+
+/-- The httpStream LTS is driven exactly under these rules: each of its call/return steps is a step of the
+    discipline (its runs are permitted interleavings), and whenever the rules allow Forward a call or its return,
+    the LTS has that step (it excludes nothing Forward may do), in states without an abandoned `Send`. -/
+theorem C10_stream_lts_under_rules (cfg : HS.Cfg) (s : HS.St) :
+    (∀ s' ev, HS.step cfg s ev = some s' →
+      (match HS.kindEv ev with
+       | some k => HS.dstep (HS.discOfHS s) k = some (HS.discOfHS s')
+       | none => HS.discOfHS s' = HS.discOfHS s)) ∧
+    (HS.Reachable cfg s → s.abandoned = false →
+      (∀ d' md, HS.dstep (HS.discOfHS s) .setHeader = some d' → (HS.step cfg s (.setHeader md)).isSome = true) ∧
+      (∀ d' md, HS.dstep (HS.discOfHS s) .setTrailer = some d' → (HS.step cfg s (.setTrailer md)).isSome = true) ∧
+      (∀ d' x, HS.dstep (HS.discOfHS s) .sendCall = some d' → (HS.step cfg s (.sendCall x)).isSome = true) ∧
+      (∀ d' e, HS.dstep (HS.discOfHS s) .fwdRet = some d' → (HS.step cfg s (.fwdRet e)).isSome = true)) := by
+  refine ⟨fun s' ev hs => HS.hs_sim cfg s s' ev hs, fun hr ha => ?_⟩
+  obtain ⟨_, h2, h3, h4, h5⟩ := HS.hs_offers cfg s hr ha
+  exact ⟨h2, h3, h4, h5⟩
+
+/-- **Confluence: the rendered response is the sequential one.** In every reachable state of the LTS in which the
+    handler has returned and no `Send` helper was abandoned — whatever the interleaving of helper steps, returns and
+    handler steps — the ResponseWriter holds exactly what the completed response-side calls, applied one after the
+    other in call order, followed by the handler's `writeError` on Forward's return value, produce. -/
+theorem C10_stream_final_is_sequential (cfg : HS.Cfg) (s : HS.St) (h : HS.Reachable cfg s)
+    (ha : s.abandoned = false) (hf : s.finished = true) :
+    ∃ ret, s.fwd = some ret ∧ s.core = HS.seqCore cfg s.log ret :=
+  HS.final_core cfg s h ha hf
+
+/-- **The LTS refines `serve`.** For the calls Forward makes for the scenario's scripted target
+    (`callsUnary/callsStream`, `retUnary/retStream`): every run of the httpStream LTS that the call rules permit and in
+    which no `Send` was abandoned ends, once the handler returned, in the response the `serve` model computes — status,
+    Content-Type, X-Content-Type-Options, headers, trailers and body (`item` = the bytes of one streamed value). -/
+theorem C10_stream_lts_refines_serve (sc : Scenario) (env : Env) (t : RespTranscoder) (sse : Bool) (item : Bytes) :
+    (∀ s, HS.Reachable (HS.cfgUnary sc t) s → s.abandoned = false → s.finished = true →
+      s.log = HS.callsUnary sc env → s.fwd = some (HS.retUnary sc env) →
+      HS.Matches (serveUnary sc env t) s.core.observe item) ∧
+    (∀ s, HS.Reachable (HS.cfgStream sc t) s → s.abandoned = false → s.finished = true →
+      s.log = HS.callsStream sc env item → s.fwd = some (HS.retStream sc env) →
+      HS.Matches (serveStream sc env t sse) s.core.observe item) := by
+  constructor
+  · intro s hr ha hf hl hret
+    obtain ⟨ret, h1, h2⟩ := HS.final_core _ s hr ha hf
+    rw [hret] at h1; injection h1 with h1; subst h1
+    rw [h2, hl]
+    exact HS.unary_seq_is_serve sc env t item
+  · intro s hr ha hf hl hret
+    obtain ⟨ret, h1, h2⟩ := HS.final_core _ s hr ha hf
+    rw [hret] at h1; injection h1 with h1; subst h1
+    rw [h2, hl]
+    exact HS.stream_seq_is_serve sc env t sse item
+
+/-- **The status line is decided exactly once, headers count only before the first byte.** What the first
+    `WriteHeader`/`Write` committed — status, header snapshot, Content-Type — is what the client sees after every later
+    step, in EVERY run (`SetHeader` after the first byte, a second `WriteHeader` by `writeError`, … change nothing). -/
+theorem C10_stream_status_once (cfg : HS.Cfg) (s s' : HS.St) (l : HS.Ev) (hs : HS.step cfg s l = some s')
+    (w : HS.Wire) (hw : s.core.wire = some w) :
+    s'.core.wire = some w ∧ s'.core.observe.status = w.status ∧ s'.core.observe.hdrs = w.hdrs ∧
+    s'.core.observe.ct = w.ct := by
+  have h := HS.wire_stable cfg s s' l hs w hw
+  simp [h, HS.Core.observe]
+
+/-- **No error body after a success byte.** If a `Send` has put bytes on the wire, the handler's error path renders
+    nothing: the final state is exactly the calls' — for every permitted run without an abandoned `Send`. -/
+theorem C10_stream_no_error_after_success (cfg : HS.Cfg) (s : HS.St) (h : HS.Reachable cfg s)
+    (ha : s.abandoned = false) (hf : s.finished = true)
+    (hw : (s.log.foldl (HS.Core.apply cfg) {}).wire.isSome = true) :
+    s.core = s.log.foldl (HS.Core.apply cfg) {} := by
+  obtain ⟨ret, _, h2⟩ := HS.final_core cfg s h ha hf
+  rw [h2]
+  cases ret with
+  | none => rfl
+  | some e => simp [HS.seqCore, hw, writeError, HS.Core.render]
+
+/-- **Trailer placement.** `SetTrailer` before the first `Send` adds plain headers; afterwards it only adds
+    `Trailer:`-prefixed keys (HTTP trailers) and leaves the headers alone. `SetHeader` after a `Send` is ignored. -/
+theorem C10_stream_trailer_placement (c : HS.Core) (md : MD) :
+    (c.sent = false → (c.setTrailer md).hdrs = appendHeaders c.hdrs md ∧ (c.setTrailer md).trls = c.trls) ∧
+    (c.sent = true → (c.setTrailer md).hdrs = c.hdrs ∧ (c.setTrailer md).trls = appendHeaders c.trls md ∧
+      c.setHeader md = c) := by
+  constructor <;> intro h <;> simp [HS.Core.setTrailer, HS.Core.setHeader, h]
+
+/-- **The excluded class is really excluded (known finding C18-D21).** With a `Send` that `withCtx` abandoned
+    (`sendRet true`: the context ended, the helper is still before its write) the guarantee FAILS: there is a run,
+    permitted by every call rule, in which the handler's `writeError` decides on an unwritten response, the
+    abandoned helper then writes the success bytes (status 200), and the error body is appended after them — two
+    writers, a 200 carrying the success bytes followed by an error document, where the sequential reading
+    (DeadlineExceeded before any byte) is 504 with the Status body only. Kernel-checked on the concrete run
+    `HS.d21Run`; the same call with `Send` returning after its helper (`HS.d21Orderly`) is a clean 200. -/
+theorem C10_abandoned_send_breaks_single_writer :
+    ∃ s, HS.Reachable HS.d21Cfg s ∧ s.finished = true ∧ s.abandoned = true ∧
+      s.core.observe.status = 200 ∧ s.core.observe.body = [[79, 75], [69]] ∧
+      s.fwd = some (some HS.d21Err) ∧
+      (HS.seqCore HS.d21Cfg s.log (some HS.d21Err)).observe.status = 504 ∧
+      (HS.seqCore HS.d21Cfg s.log (some HS.d21Err)).observe.body = [[69]] ∧
+      s.core ≠ HS.seqCore HS.d21Cfg s.log (some HS.d21Err) := by
+  have hrun : ∃ s, GB.LTS.run (HS.step HS.d21Cfg) HS.init HS.d21Run = some s ∧ s.finished = true ∧ s.abandoned = true ∧
+      s.core.observe.status = 200 ∧ s.core.observe.body = [[79, 75], [69]] ∧
+      s.fwd = some (some HS.d21Err) ∧
+      (HS.seqCore HS.d21Cfg s.log (some HS.d21Err)).observe.status = 504 ∧
+      (HS.seqCore HS.d21Cfg s.log (some HS.d21Err)).observe.body = [[69]] ∧
+      s.core ≠ HS.seqCore HS.d21Cfg s.log (some HS.d21Err) := by
+    refine ⟨_, rfl, ?_⟩
+    decide
+  obtain ⟨s, hr, rest⟩ := hrun
+  exact ⟨s, GB.LTS.run_reachable _ _ _ _ GB.LTS.Reachable.init hr, rest⟩
+
+/-- non-vacuity of the positive theorems: the orderly run of the same call ends finished, not abandoned, as a 200
+    with exactly the response bytes -/
+example : ∃ s, GB.LTS.run (HS.step HS.d21Cfg) HS.init HS.d21Orderly = some s ∧ s.finished = true ∧
+    s.abandoned = false ∧ s.core.observe.status = 200 ∧ s.core.observe.body = [[79, 75]] ∧
+    s.core = HS.seqCore HS.d21Cfg s.log none := by
+  refine ⟨_, rfl, ?_⟩
+  decide
 
 /-! ### headers and trailers -/
 
